@@ -73,6 +73,17 @@ def rule_a(ctx, R, tb):
             break
     names = [c["callee"].get("name") for c in chain]
     rng = v.rvalue_of(cur) if cur is not None and cur.kind == "local" else None
+    # the other way to visit every subset id once, in order: `table.iter_mut().enumerate()` over the table of 2^E entries allocated
+    # here (`vec![none; 2^E]`) — the index plays the loop variable, rewritten as the range 0..len for the checks below
+    enum_index = False
+    core_names = [n for n in names if n not in ("into_iter", "deref", "deref_mut", "as_mut_slice", "as_mut", "borrow_mut")]
+    if core_names[:3] == ["enumerate", "iter_mut", "from_elem"]:
+        ft = [c for c in chain if c["callee"].get("name") == "from_elem"][0]
+        names = [n for n in names if n in ("into_iter", "enumerate", "iter_mut")]
+        if len(ft["args"]) >= 2:
+            rng = {"k": "aggregate", "adt": "core::ops::range::Range", "fields": ["start", "end"],
+                   "ops": [{"k": "const", "int": "0", "ty": "usize"}, ft["args"][1]]}
+            enum_index = True
     src_ok = rng is not None and rng["k"] == "aggregate" and rng.get("adt", "").endswith("range::Range")
     skipping = [n for n in names if n in SKIPPING]
     lo_ok = hi_ok = False
@@ -139,6 +150,8 @@ def rule_a(ctx, R, tb):
     tcd = cfg.transitive_control_deps(tb, acyclic=True)
     deps = set(e for e in tcd[ebi] if e[0] in body_blocks)
     loopvar = v.root_place({"l": nt["dest"]["l"], "p": []}).with_path(("as:Some", "0"))
+    if enum_index:
+        loopvar = loopvar.with_path(("0",))      # (index, &mut entry): the index is the subset id
 
     def is_loop_subset(r):
         """the loop element itself (mapped iterator of ids) or the id built from the loop index by the from_id role"""
@@ -224,8 +237,9 @@ def rule_a(ctx, R, tb):
         stored = None
         for bi, si, st in pat.stmts(tb):
             flds = [e for e in st["place"]["p"] if e["k"] == "field"]
-            if flds and flds[-1]["name"] == "generalized_dod" and bi in body_blocks:
-                o = st["rv"].get("op")
+            whole = st["rv"]["k"] == "aggregate" and st["rv"].get("agg") == "adt" and "generalized_dod" in (st["rv"].get("fields") or []) and bi in body_blocks
+            if whole or (flds and flds[-1]["name"] == "generalized_dod" and bi in body_blocks):
+                o = st["rv"]["ops"][st["rv"]["fields"].index("generalized_dod")] if whole else st["rv"].get("op")
                 r = v.deep_root(o) if o and o["k"] in ("copy", "move") else None
                 if r is not None:
                     rvv = v.rvalue_of(r)
